@@ -57,8 +57,26 @@ def token_event(case, rng):
 
 
 # ------------------------------------------------------------------ (C) real configurations
+def toy_history_material(rng):
+    """a cheap path-dependent material (compiles in seconds): quadratic energy coupled to one internal variable that
+    accumulates the deviatoric strain norm.  Used to compare multi-block with single-block state updates on many partitions."""
+    import jax.numpy as np
+    from optimism.material.MaterialModel import MaterialModel
+    E = 10 ** rng.uniform(0, 1)
+    def energy(dispGrad, state, dt):
+        eps = 0.5 * (dispGrad + dispGrad.T)
+        return 0.5 * E * np.tensordot(eps, eps) + 0.05 * E * state[0] * np.trace(eps) + 0.1 * E * np.trace(eps) ** 2
+    def state_new(dispGrad, state, dt):
+        eps = 0.5 * (dispGrad + dispGrad.T)
+        dev = eps - np.trace(eps) / 3.0 * np.eye(3)
+        return np.array([state[0] + np.sqrt(np.tensordot(dev, dev) + 1e-30)])
+    return MaterialModel(energy, lambda: np.array([0.0]), state_new)
+
+
 def make_material(name, rng):
     from optimism.material import Neohookean, J2Plastic, LinearElastic
+    if name == "toy":
+        return toy_history_material(rng)
     E = 10 ** rng.uniform(0, 2)
     nu = rng.uniform(0.1, 0.4)
     rho = rng.uniform(0.5, 3.0)
@@ -266,10 +284,15 @@ def main(tier, replay=None):
             cases[tid] = dict(mode="config", cfg=c, seed=s)
         parts = [b["parts"] for b in blk.payloads("BEH")]
         rng.shuffle(parts)
-        for i, p in enumerate(parts[:4 if tier == "quick" else 40]):
+        # blocks that are a contiguous range listed in non-ascending order, interleaved blocks, single-element blocks first
+        def interesting(p):
+            return any(len(b) > 1 and sorted(b) == list(range(min(b), max(b) + 1)) and b != sorted(b) for b in p)
+        parts.sort(key=lambda p: 0 if interesting(p) else 1)
+        chosen_parts = parts[:8 if tier == "quick" else 60] + parts[-(6 if tier == "quick" else 40):]
+        for i, p in enumerate(chosen_parts):
             tid += 1
             s = rng.randrange(1 << 30)
-            mat = "j2" if (i % 6 == 3) else "neohookean"
+            mat = "j2" if (tier == "thorough" and i % 10 == 3) else ("toy" if i % 4 != 3 else "neohookean")
             traces.append(dict(id=tid, ev=[multi_event(p, mat, random.Random(s))]))
             cases[tid] = dict(mode="multi", parts=p, mat=mat, seed=s)
     for t in traces:
